@@ -195,8 +195,22 @@ def run_C15(case):
                     # a read iterator is partly consumed, the request runs, the iterator is drained
                     ga, outa = start_span(A, sp)
                     gb, outb = start_span(B, sp)
+                lim = cfg.get("size_limit")
+                if lim and B.backend == "sim" and i == lim["at"] % max(1, n):
+                    # for this one request the link store (or the trie) may grow by a block and a half only
+                    tr_ = B.traph
+                    path_ = tr_.link_store_path if lim["file"] == "links" else tr_.lru_trie_path
+                    B.disk.size_limit = (path_, len(B.disk.files[path_]) + lim["room"])
                 oa = run_op(A, op, refs, model)
                 ob = run_op(B, op, refs, model)
+                if lim and B.backend == "sim" and getattr(B.disk, "size_limit", None) is not None:
+                    B.disk.size_limit = None
+                    if getattr(B.disk, "limit_hits", 0):
+                        res.probes["request_met_a_file_size_limit"] += 1
+                        if ob[0] == "raised" and "injected" in str(ob):
+                            # the on-disk index told its caller: the two histories are no longer the same
+                            res.probes["size_limit_reported_to_the_caller"] += 1
+                            break
                 if sp is not None:
                     ra, rb = finish_span(ga, outa), finish_span(gb, outb)
                     res.evals["C15.spanning_read"] += 1
@@ -267,6 +281,9 @@ def gen_C15(rng, tier, seed):
     c["config"]["sweep_every"] = rng.choice([1, 2, 4, 8])
     if rng.random() < 0.12:
         c["config"]["rejected_first"] = rng.choice(["regex", "rules_type", "default_type"])
+    if c["config"]["backend"] == "sim" and rng.random() < 0.1:
+        c["config"]["size_limit"] = {"at": rng.randrange(64), "file": rng.choice(["links", "links", "trie"]), "room": rng.choice([8, 24, 40, 64, 192])}
+        c["spanning_reads"] = []
     sr = []
     for i, o in enumerate(c["ops"]):
         if (o["op"] == "clear" and rng.random() < 0.7) or rng.random() < 0.05:
